@@ -111,7 +111,8 @@ def gen_default(rng):
 
 PARTIALS = ["HH:MM", "HH:MM:SS", "HHam", "Mon", "Month YYYY", "YYYY",
             "YYYY-MM", "Mon DD", "DD", "Wd", "Weekday HH:MM", "Mon YYYY",
-            "HH:MM:SS.ffffff", "DD Mon", "YYYY-MM-DD"]
+            "HH:MM:SS.ffffff", "DD Mon", "YYYY-MM-DD", "Wd Month",
+            "Wd Mon YYYY", "Wd Month HH:MM"]
 
 
 def gen_fill(rng):
@@ -302,6 +303,16 @@ def render_partial(kind, f):
                                                     "minute"}
     if kind == "YYYY-MM-DD":
         return "%04d-%02d-%02d" % (y, m, d), {"year", "month", "day"}
+    # a weekday together with a month (and year) but no day number: the
+    # default's day is clipped to that month first, then moved forward
+    if kind == "Wd Month":
+        return "%s %s" % (R.WDF[wd], R.MONTHSF[m - 1]), {"weekday", "month"}
+    if kind == "Wd Mon YYYY":
+        return "%s %s %04d" % (R.WD3[wd], mon, y), {"weekday", "month",
+                                                    "year"}
+    if kind == "Wd Month HH:MM":
+        return "%s %s %02d:%02d" % (R.WDF[wd], R.MONTHSF[m - 1], H, M), \
+            {"weekday", "month", "hour", "minute"}
     raise ValueError(kind)
 
 
